@@ -553,7 +553,9 @@ class C12Prop(LineFileBase):
     n_recfile = {"quick": 150, "thorough": 800, "search": 600}
 
     def extra_scenarios(self, rng, tier):
-        return [{"kind": "recfile", "seed": rng.randrange(1 << 30)} for _ in range(self.n_recfile.get(tier, 150))]
+        n = self.n_recfile.get(tier, 150)
+        return [{"kind": "recfile", "seed": rng.randrange(1 << 30)} for _ in range(n)] + \
+               [{"kind": "recfileM", "seed": rng.randrange(1 << 30)} for _ in range(n)]
 
     def run_extra(self, desc):
         import random
@@ -562,6 +564,20 @@ class C12Prop(LineFileBase):
         if rp is None:
             rp = self._recprop = RecProp()
             rp.scratch = None
+        if desc["kind"] == "recfileM":
+            # the Lean machine `recfile` (Model/RecFile.lean: theorems records_list_semantics, save_untouched, save_edited)
+            # against the real mutable record file classes, with CSV records that have a text of their own
+            c = rp.gen_recfile_case(random.Random(desc["seed"]))
+            io = rp.safe_impl(c)
+            d = rp.oracle(c, io)
+            if d is not None:
+                return f"mutable record file (ops {c.ops}, {c.meta}): {d[:1200]}"
+            mo = rp.run_model([c])[0]
+            j = rp.first_diff(mo, io)
+            if j is not None and rp.observable_kind(c, j, mo[j], io[j]) == "PO":
+                return (f"mutable record file (ops {c.ops[:j + 1]}, {c.meta}): `{c.ops[j]}` gives {io[j][:300]!r}, the proved "
+                        f"model {mo[j][:300]!r}")
+            return None
         try:
             r = core.call_with_alarm(lambda: rp.recfile(random.Random(desc["seed"])), 20.0)
         except core.Timeout:
